@@ -16,7 +16,8 @@ import (
 type VerifNAT struct{ n *networkAddressTranslator }
 
 // VerifNewNAT builds a translator exactly as Router does.
-func VerifNewNAT(oneToOne bool, mapb, filtb int, life time.Duration, mapped, local []net.IP) (*VerifNAT, error) {
+func VerifNewNAT(oneToOne bool, mapb, filtb int, life time.Duration, mapped, local []net.IP, opts ...bool) (*VerifNAT, error) {
+	portPreservation, hairpinning := len(opts) > 0 && opts[0], len(opts) > 1 && opts[1]
 	mode := NATModeNormal
 	if oneToOne {
 		mode = NATModeNAT1To1
@@ -28,6 +29,8 @@ func VerifNewNAT(oneToOne bool, mapb, filtb int, life time.Duration, mapped, loc
 			MappingBehavior:   EndpointDependencyType(mapb),  //nolint:gosec
 			FilteringBehavior: EndpointDependencyType(filtb), //nolint:gosec
 			MappingLifeTime:   life,
+			PortPreservation:  portPreservation,
+			Hairpinning:       hairpinning,
 		},
 		mappedIPs:     mapped,
 		localIPs:      local,
